@@ -24,8 +24,9 @@ Definition full_handshake (c2 : Client) (s2 : Server) : res Resumed :=
   Ok {| rs_resumed := false; rs_client := oc_client o; rs_server := oc_server o |}.
 
 (* sc / ss: the session as stored by the client / by the server (cache entry or ticket contents) *)
-(* by_ticket: the session reaches the server inside an RFC 5077 ticket (which does not carry the SRP user
-   name) rather than through its session cache *)
+(* by_ticket: the session reaches the server inside an RFC 5077 ticket rather than through its session cache.
+   Since /repo 19b1cb2 the ticket carries the SRP user name as well, so the two mechanisms no longer differ in
+   anything modelled here; the parameter is kept so that histories still say which mechanism was used. *)
 Definition resume_legacy (by_ticket : bool) (c2 : Client) (s2 : Server) (sc ss : View) : res Resumed :=
   ch <- client_offer c2 ;;
   (* the client refuses (ValueError) to offer a session whose suite it no longer enables or whose
@@ -42,8 +43,6 @@ Definition resume_legacy (by_ticket : bool) (c2 : Client) (s2 : Server) (sc ss :
   if 3 <? v then full_handshake c2 s2                  (* TLS 1.3 selected: the old session is not used *)
   else if negb (memZ (vw_suite ss) (server_suites s2 ch v)) then full_handshake c2 s2
   else if negb (memZ (vw_suite ss) (ch_suites ch)) then server_alert a_illegal_parameter
-  else if by_ticket && (match ch_srp_user ch with Some _ => true | None => false end)
-       then server_alert a_handshake_failure            (* the ticket has no srpUsername to compare with *)
   else if (match ch_sni ch with Some n => negb (opt_eqb (vw_sni ss) (Some n)) | None => false end)
        then server_alert a_handshake_failure
   else if vw_etm ss && negb (ch_etm ch) then server_alert a_illegal_parameter
@@ -72,7 +71,7 @@ Definition resume_legacy (by_ticket : bool) (c2 : Client) (s2 : Server) (sc ss :
                 | Some r, None => (r, two14)
                 | None, _ => (two14, two14) end in
     Ok {| rs_resumed := true;
-          (* the client keeps the stored session's appProto when this ServerHello carries no ALPN *)
-          rs_client := resumed_view sc v (match alpn with Some p => Some p | None => vw_alpn sc end)
-                                    (fst clim) (snd clim);
+          (* /repo 7678352: no ALPN in this ServerHello => the client reports none (it used to keep the stored
+             session's appProto) *)
+          rs_client := resumed_view sc v alpn (fst clim) (snd clim);
           rs_server := resumed_view ss v alpn (fst slim) (snd slim) |}.
